@@ -27,7 +27,22 @@ def time_types():
         "float": (DEVSSimulatorFloat, float),
         "int": (DEVSSimulatorInt, int),
         "duration": (DEVSSimulatorDuration, lambda x: Duration(float(x), "s")),
+        # replications that do not start at zero
+        "float@100": (DEVSSimulatorFloat, float),
+        "float@-10": (DEVSSimulatorFloat, float),
+        "int@2^60": (DEVSSimulatorInt, int),
+        "duration@1h": (DEVSSimulatorDuration,
+                        lambda x: Duration(float(x), "s")),
     }
+
+
+def base_of(clock):
+    """replication start time of a clock variant"""
+    from pydsol.core.units import Duration
+    return {"float": 0.0, "int": 0, "float@100": 100.0, "float@-10": -10.0,
+            "int@2^60": 2 ** 60 + 123456789,
+            "duration": Duration(0.0, "s"),
+            "duration@1h": Duration(1.0, "h")}[clock]
 
 
 # ------------------------------------------------------------------ generator
@@ -115,10 +130,12 @@ def make_model_class():
             self._method(**self._kwargs)
 
     class ProgModel(DSOLModel):
-        def __init__(self, sim, prog, T, faults=None, gates=None, raw=()):
+        def __init__(self, sim, prog, T, faults=None, gates=None, raw=(),
+                     base=None):
             super().__init__(sim)
             self.prog = prog
             self.T = T
+            self.base = T(0) if base is None else base
             self.faults = faults or {}
             self.gates = gates or {}     # execution index -> CoopEvent
             self.raw = set(raw)          # tags scheduled as non-wrapping events
@@ -130,6 +147,7 @@ def make_model_class():
             self.ill = []         # outcomes of illegal requests
             self.cancels = []     # (target, returned-without-exception)
             self.nexec = 0
+            self.runaway = False
 
         def construct_model(self):
             self.reset()
@@ -140,7 +158,11 @@ def make_model_class():
             if s is not None and s.killed:
                 raise coopsched.Kill()
             sim = self.simulator
-            self.trace.append((float(sim.simulator_time), tag))
+            if self.nexec > 60 + 20 * len(self.prog):
+                # watchdog: a correct simulator executes every event once
+                self.runaway = True
+                return
+            self.trace.append((float(sim.simulator_time - self.base), tag))
             k = self.nexec
             self.nexec += 1
             f = self.faults.get(tag)
@@ -383,10 +405,13 @@ class RefSim:
             return self.expect("ok", spec)
         spec = True
         pause_k = None
-        if k in ("start", "pause_at"):
+        pause_tc = None
+        if k in ("start", "pause_at", "pause_tc"):
             bound, incl = self.end, True
             if k == "pause_at":
                 pause_k = piece[1]
+            if k == "pause_tc":
+                pause_tc = piece[1]
         else:
             bound, incl = piece[1], (k == "uptoi")
             if bound < ref.clock or bound > self.end:
@@ -394,12 +419,24 @@ class RefSim:
             if bound > self.end:
                 bound, incl = self.end, True
         paused = False
+        ntc = 0
         while ref.pend:
             e = ref.peek()
             if e[0] > bound or (e[0] == bound and not incl):
                 break
+            stop_here = False
+            if e[0] != ref.clock:
+                # the run announces a time change; a listener may stop there:
+                # the announced event still runs, then the run pauses
+                if pause_tc is not None and ntc == pause_tc:
+                    stop_here = True
+                ntc += 1
             tag = ref.step()
+            if stop_here:
+                paused = True
             if tag == "W":
+                if paused:
+                    break
                 continue
             self.nexec += 1
             if pause_k is not None and self.nexec - 1 == pause_k:
@@ -418,21 +455,43 @@ class RefSim:
                            may_end=(k == "upto" and piece[1] == self.end))
 
 
-def issue(sim, s, model, piece, T):
+def issue(sim, s, model, piece, T, base=None):
     """issue one piece on the real simulator from the driver thread and wait
     for scheduler-decided quiescence; returns the outcome string"""
     from pydsol.core.utils import DSOLError
     k = piece[0]
     gate = None
+    if base is None:
+        base = T(0)
     try:
         if k == "start":
             sim.start()
         elif k == "upto":
-            sim.run_up_to(T(piece[1]))
+            sim.run_up_to(base + T(piece[1]))
         elif k == "uptoi":
-            sim.run_up_to_including(T(piece[1]))
+            sim.run_up_to_including(base + T(piece[1]))
         elif k == "step":
             sim.step()
+        elif k == "pause_tc":
+            from pydsol.core.pubsub import EventListener
+            from pydsol.core.interfaces import SimulatorInterface as SI_
+
+            class StopOnTC(EventListener):
+                def __init__(self, n):
+                    self.n = n
+                    self.seen = 0
+
+                def notify(self, e):
+                    if self.seen == self.n:
+                        sim.stop()
+                    self.seen += 1
+            lst = StopOnTC(piece[1])
+            sim.add_listener(SI_.TIME_CHANGED_EVENT, lst)
+            try:
+                sim.start()
+                s.wait_quiescent()
+            finally:
+                sim.remove_listener(SI_.TIME_CHANGED_EVENT, lst)
         elif k == "pause_at":
             gate = coopsched.CoopEvent()
             model.gates = {piece[1]: gate}
@@ -461,21 +520,22 @@ def run_pieces(prog, clock, pieces, faults=None, strategy=None, raw=(),
     piece plus a final one after cleanup"""
     from pydsol.core.experiment import SingleReplication
     simc, T = time_types()[clock]
+    base = base_of(clock)
     M = model_class()
 
     def body(s):
         sim = simc("s")
-        m = M(sim, prog, T, faults=faults, raw=raw)
+        m = M(sim, prog, T, faults=faults, raw=raw, base=base)
         if strategy is not None:
             sim.set_error_strategy(strategy)
-        sim.initialize(m, SingleReplication("r", T(0), T(warmup), T(end)))
+        sim.initialize(m, SingleReplication("r", base, T(warmup), T(end)))
         if listener is not None:
             listener(sim)
         obs = []
         for piece in pieces:
-            out = issue(sim, s, m, piece, T)
+            out = issue(sim, s, m, piece, T, base)
             obs.append(dict(outcome=out, trace=list(m.trace),
-                            clock=float(sim.simulator_time),
+                            clock=float(sim.simulator_time - base),
                             state=(sim.run_state.name,
                                    sim.replication_state.name)))
         sim.cleanup()
